@@ -224,9 +224,9 @@ Section StepsGen.
   (** [__collect]: the tracing phases run with finalizing/dropping cleared; both are restored
       before anything else happens, also when tracing unwinds *)
   Lemma f_step_collect_once f d p m :
-    inv A (true, f, d, p) m -> res A (true, f, d, p) (step_collect_once K P rec m).
+    okc true -> inv A (true, f, d, p) m -> res A (true, f, d, p) (step_collect_once K P rec m).
   Proof.
-    intros H. unfold step_collect_once.
+    intros Hc H. unfold step_collect_once.
     assert (H0 : inv A (true, false, false, p)
                    (m <| st_finalizing := false |> <| st_dropping := false |>)) by fl.
     pose proof (inv_trace_pass K P A (true, false, false, p)
@@ -323,8 +323,8 @@ Section StepsGen.
   Lemma f_cmd_s_obs self : gen_ok (cmd_s_obs K self).
   Proof.
     intros c f d p m Hc H Hq. unfold cmd_s_obs, ok. apply res_intro, inv_emit_benign; [exact I|].
-    apply inv_emit; [|exact H].
-    unfold cur_flags. cbn [fl_t ev_ok flagsA lp_ev].
+    apply inv_emit; [|exact H]. apply HevA.
+    unfold cur_flags. cbn [fl_t ev_ok].
     rewrite (inv_c _ _ _ _ _ _ H), (inv_f _ _ _ _ _ _ H), (inv_d _ _ _ _ _ _ H). exact Hq.
   Qed.
 
@@ -375,7 +375,7 @@ Section StepsGen.
     (forall mo aid s, gen_ok (step_clean_run K P rec mo aid s)) /\
     (forall k f d p m, inv A (true, f, d, p) m ->
        res A (true, f, d, p) (step_collect_loop rec k m)) /\
-    (forall f d p m, inv A (true, f, d, p) m ->
+    (forall f d p m, okc true -> inv A (true, f, d, p) m ->
        res A (true, f, d, p) (step_collect_once K P rec m)) /\
     (forall L rest any old_f c d p m, okc c -> inv A (c, true, d, p) m -> tq K (c, true, d, p) ->
        res A (c, old_f, d, p) (step_finalize_list K P rec L rest any old_f m)) /\
@@ -489,7 +489,7 @@ Section Steps.
     - apply f_step_collect_cycles, inv_self, Hl.
     - unfold target, ctl. rewrite Hc. apply f_step_collect. rewrite <- Hc. apply inv_self, Hl.
     - unfold target, ctl. rewrite Hc. apply G10. rewrite <- Hc. apply inv_self, Hl.
-    - unfold target, ctl. rewrite Hc. apply G11. rewrite <- Hc. apply inv_self, Hl.
+    - unfold target, ctl. rewrite Hc. apply G11; [exact I|]. rewrite <- Hc. apply inv_self, Hl.
     - destruct Hc as [Hq Hf]. unfold target. apply G12.
       + exact I.
       + rewrite <- Hf. apply inv_self, Hl.
